@@ -27,6 +27,7 @@ List(vs) == [k |-> "list", v |-> vs]
 Dotted(vs, tail) == [k |-> "dotted", v |-> vs, tail |-> tail]
 Vec(vs) == [k |-> "vec", v |-> vs]
 Arr(dims, vs) == [k |-> "array", dims |-> dims, v |-> vs]
+Hash(kvs) == [k |-> "hash", v |-> kvs]      \* hash tables (C19 load forms; they have no read syntax)
 
 \* code points of a text given as a TLA+ string of plain ASCII
 Ascii == " !\"#$%&'()*+,-./0123456789:;<=>?@ABCDEFGHIJKLMNOPQRSTUVWXYZ[\\]^_`abcdefghijklmnopqrstuvwxyz{|}~"
@@ -65,15 +66,16 @@ Wraps(o) ==
   {List(<<o>>), Vec(<<o>>), Dotted(<<o>>, IntO("3", FALSE)), List(<<Sym("quote"), o>>), List(<<Sym("function"), o>>)}
   \cup {List(<<m, o>>) : m \in Mates} \cup {List(<<o, m, o>>) : m \in Mates}
   \cup (IF o.k \in {"nil", "list", "dotted"} THEN {} ELSE {Dotted(<<m>>, o) : m \in {Sym("a"), IntO("1", FALSE)}})      \* (a . (b)) is the list (a b)
-  \cup {Dotted(<<m, o>>, Sym("z")) : m \in {Str(Cps("q"))}}
+  \cup {Dotted(<<m, o>>, Sym("z")) : m \in {Str(Cps("q"))}} \cup {Dotted(<<Nil, o, Nil, Sym("y")>>, IntO("3", FALSE))}
   \cup {Vec(<<m, o>>) : m \in Mates} \cup {Arr(<<2, 2>>, <<o, m, m, o>>) : m \in {IntO("0", FALSE), Str(Cps("e"))}}
   \cup {Arr(<<1, 2, 1>>, <<o, m>>) : m \in {Sym("x")}} \cup {Arr(<<2, 0>>, <<>>), Arr(<<>>, <<o>>)}
   \cup (IF Level = 1 THEN {} ELSE {List(<<o, o, o, o, o, o, o, o>>), List(<<List(<<o>>), Vec(<<o>>), Nil>>), Vec(<<>>)})
+  \cup (IF Family = "hash" THEN {Hash(<<<<Sym("k"), o>>>>), Hash(<<<<Str(Cps("s t")), o>>, <<IntO("7", FALSE), Sym("v")>>, <<Kw("kw"), List(<<o, o>>)>>>>), Hash(<<>>)} ELSE {})
 StructSeeds == {IntO("7", FALSE), IntO("9223372036854775808", FALSE), Ratio("1", "3", FALSE), Float("double", "0.1"), Float("single", "4"), Str(Cps("a\"b\\c")),
                 Str(<<97, 10, 98>>), Chr(32), Chr(97), Sym("abc"), Sym("a b"), Sym("1"), Kw("kw"), Nil, T, Float("long", "1.5")}
 Init == /\ depth = 0
         /\ obj \in (IF Family = "leaf" THEN Leaves ELSE StructSeeds)
-Next == /\ Family = "struct" /\ depth < MaxDepth
+Next == /\ Family \in {"struct", "hash"} /\ depth < MaxDepth
         /\ depth' = depth + 1
         /\ obj' \in Wraps(obj)
 
